@@ -269,6 +269,32 @@ func ruleRowLayoutAgreement(c *Ctx) {
 			}
 		}
 	}
+	// … and the padding buffer is appended nowhere else in the row (e.g. inside the column loop)
+	if rowLoop != nil && pads >= 1 {
+		padObjs := map[types.Object]bool{}
+		for _, st := range rowLoop.Body.List {
+			if is, ok := st.(*ast.IfStmt); ok {
+				walkAll(is.Body, func(n ast.Node) bool {
+					if call, ok := n.(*ast.CallExpr); ok && CalleeName(s.Info, call) == "builtin.append" && len(call.Args) == 2 && call.Ellipsis.IsValid() {
+						if o := identObj(s.Info, call.Args[1]); o != nil {
+							padObjs[o] = true
+						}
+					}
+					return true
+				})
+			}
+		}
+		all := 0
+		walkAll(rowLoop.Body, func(n ast.Node) bool {
+			if call, ok := n.(*ast.CallExpr); ok && CalleeName(s.Info, call) == "builtin.append" && len(call.Args) == 2 && call.Ellipsis.IsValid() && padObjs[identObj(s.Info, call.Args[1])] {
+				all++
+			}
+			return true
+		})
+		if all > pads {
+			pads = all
+		}
+	}
 	c.Check(pads == 1, rule, s.Name, "pad-once-per-row", c.P.Pos(s.Body.Pos()), fmt.Sprintf("exactly one padding append per row (found %d)", pads))
 	// record length = AlignedSize(sum of sizes) when aligning
 	al := s.sites(callPred(s, "utils/io.AlignedSize"))
